@@ -478,7 +478,11 @@ class ExprMixin(EngineCore):
                 return [(st, Closure(fi, None))]
             for c in self.P.mro(v.ci):
                 if isinstance(c, ClassInfo) and attr in c.class_attrs:
-                    return [(st, self.eval_module_const(c.class_attrs[attr], c.module, st))]
+                    ex = c.class_attrs[attr]
+                    if isinstance(ex, ast.Call) and ast.unparse(ex.func).endswith("typed_attribute"):
+                        # a key of a TypedAttributeSet: a stable symbolic name, so that contracts can tell attributes apart
+                        return [(st, f"{c.name}.{attr}")]
+                    return [(st, self.eval_module_const(ex, c.module, st))]
             raise EngineError(f"class {v.ci.name} has no attribute {attr}")
         if isinstance(v, SuperVal):
             cls = META[v.self_val.oid].cls if isinstance(v.self_val, Ref) else None
